@@ -715,7 +715,7 @@ static void random_float_numeral(vf_rng *r)
 }
 
 /* ----------------------------------------------------------------- cases -- */
-static int n_blocks(void) { return vf_thorough ? 40 : 6; }
+static int n_blocks(void) { return vf_thorough ? 120 : 12; }
 static int n_random(void) { return vf_thorough ? 1500 : 400; }
 static int variant_bases(int v) { return v < NINTFN + 10 ? NBASE : 1; }
 static uint64_t cases_of(int v) { return (uint64_t) variant_bases(v) * (uint64_t) n_blocks() * (v < NINTFN + 10 ? 1 : 3); }
